@@ -128,6 +128,10 @@ def run(ctx):
             regen_done = []          # (op, snapshot of ref content) for the regen-then-check oracle
             for stepno in range(rng.randint(2, 7)):
                 r = rng.random()
+                ap_pdf_ = os.path.join(data, 'act_pdf.txt')
+                if not os.path.exists(ap_pdf_):
+                    with open(ap_pdf_, 'w', encoding='utf-8') as f_:
+                        f_.write('caf\u00e9 Z\u00fcrich\nplain line\n')
                 before = snapshot(data)
                 if r < 0.2:
                     k, b = rng.choice(KINDS), rng.random() < 0.7
@@ -155,7 +159,7 @@ def run(ctx):
                     ops.append((1, argv))
                 else:
                     kind = rng.choice(KINDS + ['other'])
-                    which = rng.choice(['string', 'string', 'textfile', 'binary', 'textfiles', 'frame'])
+                    which = rng.choice(['string', 'string', 'textfile', 'binary', 'textfiles', 'frame', 'pdftext'])
                     o = gen_simple_opts(rng)
                     kw = dict(lstrip=o['lstrip'], rstrip=o['rstrip'],
                               ignore_substrings=o['ignore_substrings'] or None,
@@ -181,6 +185,14 @@ def run(ctx):
                             ops.append((3, [kind] if kind is not None else [], opts_payload(o, True), ap, ref))
                             call = lambda: rt.assertTextFileCorrect(os.path.join(data, ap),
                                                                     os.path.join(data, ref), kind=kind, **kw)
+                            call()
+                        elif which == 'pdftext':
+                            # a text reference whose name ends in .pdf (compared as ISO-8859-1) and non-ASCII UTF-8
+                            # content: outside the model (oracle only)
+                            ref = 'doc.pdf'
+                            ap_ = os.path.join(data, 'act_pdf.txt')
+                            ops.append(None)
+                            call = lambda: rt.assertTextFileCorrect(ap_, os.path.join(data, 'doc.pdf'), kind=kind)
                             call()
                         elif which == 'textfiles':
                             ap = rng.choice(['act1.txt', 'act2.txt'])
@@ -323,8 +335,8 @@ def run(ctx):
             m_table = {dopt(k, dstr): bool(b) for k, b in mo[2]}
             i_fs = {}
             for n, (content, _) in final.items():
-                if n.lower().endswith('.parquet'):
-                    continue
+                if n.lower().endswith(('.parquet', '.pdf')) or n == 'act_pdf.txt':
+                    continue        # outside the model (oracle only)
                 i_fs[n] = content.decode('utf-8') if n.endswith('.txt') else content.decode('latin-1')
             if m_out != outcomes or m_fs != i_fs or m_table != table or bool(mo[3]) != quiet:
                 ctx.mismatch('history', {'fs0': fs0, 'ops': ops},
